@@ -710,6 +710,74 @@ func genRandomCase(r *rand.Rand, maxT int) *vCase {
 			c.sets[build].args = append(c.sets[build].args, it.arg)
 		}
 	}
+	// wrapper set: a named set that imports exactly one other set and adds only bindings to it
+	if nSets >= 2 && r.Intn(100) < 12 {
+		k := r.Intn(nSets - 1)
+		var provided []int
+		for _, p := range c.sets[k].provs {
+			provided = append(provided, p.outs...)
+		}
+		for _, v := range c.sets[k].vals {
+			provided = append(provided, v.out)
+		}
+		if len(provided) > 0 {
+			// fresh interface types at the end of the type table
+			nb := 1 + r.Intn(2)
+			wrap := vSet{id: 200 + k, imports: []int{k}}
+			for j := 0; j < nb; j++ {
+				c.kind = append(c.kind, 0)
+				c.base = append(c.base, 0)
+				wrap.bnds = append(wrap.bnds, vBnd{id: id(), iface: c.nT, provided: provided[r.Intn(len(provided))]})
+				c.nT++
+			}
+			// insert the wrapper right after k; later import indices shift by one
+			ns := append([]vSet(nil), c.sets[:k+1]...)
+			ns = append(ns, wrap)
+			for _, s := range c.sets[k+1:] {
+				for a := range s.imports {
+					if s.imports[a] > k {
+						s.imports[a]++
+					}
+				}
+				ns = append(ns, s)
+			}
+			c.sets = ns
+			nSets++
+			build++
+			// sometimes the build set uses the wrapper instead of (or in addition to) the base
+			if r.Intn(2) == 0 {
+				b := &c.sets[build]
+				for a := range b.imports {
+					if b.imports[a] == k {
+						b.imports[a] = k + 1
+					}
+				}
+			}
+		}
+	}
+	// planted partial duplicate: a second source for one output of a two-output item (struct provider
+	// S/*S, field F/*F), in an earlier or later position, the same or another set
+	if r.Intn(100) < 6 {
+		var two []vItem
+		for _, it := range items {
+			if len(it.outs) == 2 {
+				two = append(two, it)
+			}
+		}
+		if len(two) > 0 {
+			it := two[r.Intn(len(two))]
+			t := it.outs[r.Intn(2)]
+			s := &c.sets[r.Intn(nSets)]
+			switch r.Intn(3) {
+			case 0:
+				s.vals = append(s.vals, vVal{id: id(), out: t})
+			case 1:
+				s.provs = append(s.provs, vProv{id: id(), outs: []int{t}})
+			default:
+				c.sets[build].args = append(c.sets[build].args, t)
+			}
+		}
+	}
 	// shuffle the item lists (order independence is C10's business; the model follows the order)
 	for k := range c.sets {
 		s := &c.sets[k]
@@ -867,4 +935,72 @@ func splitVariant(r *rand.Rand, c *vCase) *vCase {
 	keep.imports = append(append([]int(nil), keep.imports...), last)
 	d.sets = append(d.sets, keep)
 	return d
+}
+
+
+// runMultiCase: several injectors over the same library sets and the same provider objects, analysed
+// one after the other in one world (as one `wire` run does); each is compared with the model's
+// independent evaluation, and finally every library set is rendered again: analysing one injector
+// must leave no state that affects another.
+func runMultiCase(r *rand.Rand, c *vCase, emit func(req, reply string)) {
+	w := newWorld(c)
+	last := len(c.sets) - 1
+	var done []setResult
+	for _, s := range c.sets[:last] {
+		done = append(done, w.buildSet(s, done))
+	}
+	libs := append([]setResult(nil), done...)
+	base := c.sets[last]
+	// candidate result types: everything the closure mentions
+	var cands []int
+	for t := 0; t < c.nT; t++ {
+		cands = append(cands, t)
+	}
+	k := 2 + r.Intn(2)
+	for j := 0; j < k; j++ {
+		cj := cloneCase(c)
+		b := &cj.sets[last]
+		b.id = base.id + j
+		if j > 0 {
+			cj.out = cands[r.Intn(len(cands))]
+			if r.Intn(3) == 0 && len(b.provs) > 1 {
+				b.provs = b.provs[:len(b.provs)-1]
+			}
+		}
+		cj.plan = true
+		wj := *w
+		wj.c = cj
+		res := wj.buildSet(*b, libs)
+		req := cj.request(w.order())
+		ls := b
+		if res.set == nil {
+			emit(req, wj.setStr(res, ls))
+			continue
+		}
+		given := types.NewTuple()
+		if res.set.InjectorArgs != nil {
+			given = res.set.InjectorArgs.Tuple
+		}
+		calls, errs := solve(w.fset, w.mk(cj.out), given, res.set)
+		if len(errs) > 0 {
+			emit(req, "err "+wj.errsStr(errs, ls))
+			continue
+		}
+		parts := make([]string, len(calls))
+		for i := range calls {
+			parts[i] = wj.callStr(&calls[i])
+		}
+		emit(req, strings.TrimRight("ok "+strings.Join(parts, " "), " "))
+	}
+	// the library sets, rendered after all injectors were analysed
+	cs := cloneCase(c)
+	cs.sets = cs.sets[:last]
+	cs.plan = false
+	if len(cs.sets) > 0 {
+		parts := make([]string, len(libs))
+		for i := range libs {
+			parts[i] = fmt.Sprintf("set %d %s", cs.sets[i].id, w.setStr(libs[i], &cs.sets[i]))
+		}
+		emit(cs.request(w.order()), strings.Join(parts, " | "))
+	}
 }
